@@ -22,6 +22,7 @@ RULE = (
     "threshold monotone in r. W1: scores from 12 input classes (ties, ulp-neighbours, int/float32, N from 1), easy counts, 4 cfg, targets "
     "<0, 0, (0,1/N), grid k/N, off-grid, range ends, 1, >1 as arrays/scalars/lists. W3: EER bisection, roc and roc_with_ci traffic. "
     "Non-trivial: N >= 2 and some target strictly inside the achievable range; distinct = hash of (scores, easy, cfg, targets)."
+    ' Build-phase additions: one-class sources (the other class only easy samples), targets as float32/2-d/non-C layouts, alias and default-method relations, numpy-integer easy counts.'
 )
 ASSUMPTIONS = ["finite scores, |score| <= 1e9", "thresholds compared up to 4 ulp as the property allows",
                "rates at a threshold are taken from the object's own rate methods (decided by C01)"]
